@@ -1,5 +1,5 @@
 """Rule registry: rule id -> function(Program) -> RuleResult; positive controls on /verif/fixtures."""
-from . import order, effects
+from . import order, effects, proto
 
 RULES = {
     "G1": order.rule_G1,
@@ -8,6 +8,11 @@ RULES = {
     "D2": effects.rule_D2,
     "D3": effects.rule_D3,
     "D4": effects.rule_D4,
+    "B1": proto.rule_B1,
+    "B2": proto.rule_B2,
+    "B3": proto.rule_B3,
+    "B4": proto.rule_B4,
+    "B5": proto.rule_B5,
 }
 
 CONTROLS = []
